@@ -3,7 +3,8 @@
    poll the message store (driver/netconf/rpc.go) and a server that answers each request now, late (after the caller's
    timeout) or never.  NcSession.tla states the same contract over whole messages; this module refines it to the byte
    level far enough to explain the two defects found there.  The byte stream is abstracted to tokens:
-            <<"rpc", i>>   the echo of the client's own request i up to and including "</rpc>"
+            <<"rpch", i>>  (SplitEcho only) the head of the echo of request i: it carries message-id i like a message head does
+            <<"rpc", i>>   the echo of the client's own request i up to and including "</rpc>" (SplitEcho: the rest of it)
             <<"eend", i>>  the framing delimiter that ends the echo of request i
             <<"pre", i>>   what precedes the head of server message i on the wire (1.1: the chunk header line, 1.0: the XML declaration)
             <<"hdr", i>>   the head of server message i (carries message-id i)
@@ -26,15 +27,15 @@
      Loop = "v0"                             : NoLoss violated (the defect 4a07be4 repaired: echo + late reply in one read)
      DataLines = TRUE                        : OwnReply violated (known finding C02:driver:1.1:data-line-starts-with-##) *)
 EXTENDS Naturals, Sequences, FiniteSets, TLC
-CONSTANTS Loop, DataLines, Echo, N, Policies, PromptEcho, Notifs, Pre
-VARIABLES stream, b, store, next, call, pol, got, owed, asked, nn
-vars == <<stream, b, store, next, call, pol, got, owed, asked, nn>>
+CONSTANTS Loop, DataLines, Echo, N, Policies, PromptEcho, Notifs, Pre, SplitEcho, IdFrom
+VARIABLES stream, b, store, next, call, pol, got, owed, asked, nn, pendEcho
+vars == <<stream, b, store, next, call, pol, got, owed, asked, nn, pendEcho>>
 
 \* Pre: the wire form of a message is modelled with its framing prefix as a token of its own (finer cuts, larger state space)
 M(i) == (IF Pre THEN << <<"pre", i>> >> ELSE <<>>) \o
         (IF DataLines THEN << <<"hdr", i>>, <<"dl", i>>, <<"body", i>>, <<"end", i>> >>
                       ELSE << <<"hdr", i>>, <<"body", i>>, <<"end", i>> >>)
-E(i) == << <<"rpc", i>>, <<"eend", i>> >>
+E(i) == IF SplitEcho THEN << <<"rpch", i>>, <<"rpc", i>>, <<"eend", i>> >> ELSE << <<"rpc", i>>, <<"eend", i>> >>
 \* notification k of the (single) subscription: no message-id, a subscription-id in its head; numbered 20 + k as a server message
 NM(k) == << <<"nhdr", 20 + k>>, <<"nbody", 20 + k>>, <<"nend", 20 + k>> >>
 None == <<>>
@@ -44,8 +45,11 @@ Looks(tok) == tok[1] \in {"end", "eend", "dl", "nend"}
 HasDelim(s) == \E k \in 1..Len(s) : Looks(s[k])
 HasRpc(s) == \E k \in 1..Len(s) : s[k][1] = "rpc"
 FirstDelim(s) == CHOOSE k \in 1..Len(s) : Looks(s[k]) /\ \A j \in 1..(k-1) : ~Looks(s[j])
-FirstId(s) == IF \E k \in 1..Len(s) : s[k][1] = "hdr"
-              THEN s[CHOOSE k \in 1..Len(s) : s[k][1] = "hdr" /\ \A j \in 1..(k-1) : s[j][1] # "hdr"][2] ELSE 0
+\* IdFrom = "any": the first message-id attribute in the buffer, wherever it stands (the code before fix 2e0bedd); "reply": the
+\* message-id of the first rpc-reply start tag
+IdTok(t) == t[1] = "hdr" \/ (IdFrom = "any" /\ t[1] = "rpch")
+FirstId(s) == IF \E k \in 1..Len(s) : IdTok(s[k])
+              THEN s[CHOOSE k \in 1..Len(s) : IdTok(s[k]) /\ \A j \in 1..(k-1) : ~IdTok(s[j])][2] ELSE 0
 HasNotif(s) == \E k \in 1..Len(s) : s[k][1] = "nhdr"
 ServerMsgs(s) == {s[k][2] : k \in {j \in 1..Len(s) : s[j][1] \in {"pre", "hdr", "body", "dl", "end", "nhdr", "nbody", "nend"}}}
 OkRead(s) == Cardinality(ServerMsgs(s)) <= 1
@@ -70,17 +74,20 @@ IterateV(ver, nb, st) ==
   ELSE Examine(nb, st)
 Iterate(nb, st) == IterateV(Loop, nb, st)
 
-Init == /\ stream = <<>> /\ b = <<>> /\ store = [i \in 0..N |-> <<>>] /\ next = 1 /\ call = 0 /\ nn = 0
+Init == /\ stream = <<>> /\ b = <<>> /\ store = [i \in 0..N |-> <<>>] /\ next = 1 /\ call = 0 /\ nn = 0 /\ pendEcho = <<>>
         /\ pol \in [1..N -> Policies] /\ got = [i \in 1..N |-> None] /\ owed = {} /\ asked = {}
 
 \* the caller: build request i, write it, then poll the store for i
-Send == /\ call = 0 /\ next <= N
+Send == /\ call = 0 /\ next <= N /\ pendEcho = <<>>
         /\ call' = next /\ next' = next + 1 /\ asked' = asked \cup {next}
-        /\ stream' = IF Echo THEN stream \o E(next) ELSE stream
+        /\ IF Echo /\ SplitEcho THEN stream' = stream \o << E(next)[1] >> /\ pendEcho' = Tail(E(next))
+           ELSE stream' = (IF Echo THEN stream \o E(next) ELSE stream) /\ pendEcho' = <<>>
         /\ UNCHANGED <<b, store, pol, got, owed, nn>>
+EchoRest == /\ pendEcho # <<>> /\ stream' = stream \o pendEcho /\ pendEcho' = <<>>
+            /\ UNCHANGED <<b, store, next, call, pol, got, owed, asked, nn>>
 Fetch == /\ call # 0 /\ store[call] # <<>>
          /\ got' = [got EXCEPT ![call] = store[call]] /\ store' = [store EXCEPT ![call] = <<>>] /\ call' = 0
-         /\ UNCHANGED <<stream, b, next, pol, owed, asked, nn>>
+         /\ UNCHANGED <<stream, b, next, pol, owed, asked, nn, pendEcho>>
 \* PromptEcho: the echo of a request reaches the client before that call's timer expires (what a pty does unless the
 \* network stalls for longer than the operation timeout)
 EchoRead(i) == \A k \in 1..Len(stream) : stream[k] \notin {<<"rpc", i>>, <<"eend", i>>}
@@ -88,24 +95,24 @@ Timeout == /\ call # 0 /\ pol[call] # "now" /\ store[call] = <<>> /\ (PromptEcho
            \* time-scale separation: a timeout is hundreds of loop iterations long, so the loop has examined all it has
            /\ Iterate(b, store) = <<b, store>>
            /\ got' = [got EXCEPT ![call] = TimedOut] /\ call' = 0
-           /\ UNCHANGED <<stream, b, store, next, pol, owed, asked, nn>>
+           /\ UNCHANGED <<stream, b, store, next, pol, owed, asked, nn, pendEcho>>
 \* the server: reply to a request it has received, now or only after the caller gave up
-Reply(i) == /\ i \in asked /\ i \notin owed /\ pol[i] # "never"
+Reply(i) == /\ i \in asked /\ i \notin owed /\ pol[i] # "never" /\ (i = call => pendEcho = <<>>)
             /\ (pol[i] = "late" => got[i] = TimedOut)
             /\ owed' = owed \cup {i} /\ stream' = stream \o M(i)
-            /\ UNCHANGED <<b, store, next, call, pol, got, asked, nn>>
+            /\ UNCHANGED <<b, store, next, call, pol, got, asked, nn, pendEcho>>
 \* the server: an asynchronous notification of the subscription, at any time
 Notify == /\ nn < Notifs /\ nn' = nn + 1 /\ stream' = stream \o NM(nn + 1)
-          /\ UNCHANGED <<b, store, next, call, pol, got, owed, asked>>
+          /\ UNCHANGED <<b, store, next, call, pol, got, owed, asked, pendEcho>>
 \* the read loop
 ReadN(n) == /\ n \in 0..Len(stream)
             /\ OkRead(SubSeq(stream, 1, n))
             /\ LET r == Iterate(b \o SubSeq(stream, 1, n), store) IN
                /\ b' = r[1] /\ store' = r[2] /\ (n = 0 => r # <<b, store>>)
             /\ stream' = SubSeq(stream, n + 1, Len(stream))
-            /\ UNCHANGED <<next, call, pol, got, owed, asked, nn>>
+            /\ UNCHANGED <<next, call, pol, got, owed, asked, nn, pendEcho>>
 Read == \E n \in 0..Len(stream) : ReadN(n)
-Next == Send \/ Fetch \/ Timeout \/ Read \/ Notify \/ \E i \in 1..N : Reply(i)
+Next == Send \/ EchoRest \/ Fetch \/ Timeout \/ Read \/ Notify \/ \E i \in 1..N : Reply(i)
 Spec == Init /\ [][Next]_vars /\ WF_vars(Next)
 
 TypeOK == call \in 0..N /\ next \in 1..(N+1)
@@ -113,7 +120,7 @@ TypeOK == call \in 0..N /\ next \in 1..(N+1)
 OwnReply == \A i \in 1..N : got[i] \notin {None, TimedOut} => got[i] = M(i)
 \* a reply the server sent in full to a caller that is still waiting is delivered: no state in which everything has
 \* been read and examined, the reply was sent, and the caller can neither fetch nor (it was promised a reply) time out
-Settled == stream = <<>> /\ Iterate(b, store) = <<b, store>>
+Settled == stream = <<>> /\ pendEcho = <<>> /\ Iterate(b, store) = <<b, store>>
 NoLoss == (Settled /\ call # 0 /\ call \in owed) => store[call] # <<>>
 Done == <>(next = N + 1 /\ call = 0)
 \* the store never holds anything but whole server messages under their own ids
